@@ -42,26 +42,37 @@ def score_c07(chk: Check, ep: qos.Episode, res: qos.Result) -> None:
 
 
 def score_c08(chk: Check, ep: qos.Episode, res: qos.Result) -> None:
-    # attribution of writes needs distinct frames per call
-    cmds = [c["cmd"] for c in ep.calls]
-    if len(set(cmds)) != len(cmds):
-        chk.count("c08.skipped_ambiguous")
-        return
+    # writes are attributed to the call whose Command object was written (two callers may send equal frames)
     by_call: dict[int, list[float]] = {}
     order: list[int] = []
-    for t, fr in res.writes:
-        i = next((i for i, c in enumerate(ep.calls) if qos.POOL[c["cmd"]][0] == fr), None)
+    for (t, fr), i in zip(res.writes, res.write_calls):
         if i is None:
             continue
+        if qos.POOL[ep.calls[i]["cmd"]][0] != fr:
+            chk.violation("c08.wrong_frame", f"call {i} wrote {fr!r}", {"episode": ep.to_json()})
         by_call.setdefault(i, []).append(t)
         if not order or order[-1] != i:
             order.append(i)
+    cmds = [c["cmd"] for c in ep.calls]
+    if len(set(cmds)) != len(cmds):
+        chk.count("c08.scored_with_duplicate_frames")
     for i, c in enumerate(ep.calls):
         ws = by_call.get(i, [])
         if len(ws) > limit_of(c):
             chk.violation("c08.over_budget", f"call {i}: {len(ws)} transmissions, limit {limit_of(c)}", {"episode": ep.to_json()})
         if i in res.outcomes and any(w > res.outcomes[i][0] + EPS for w in ws):
             chk.violation("c08.tx_after_outcome", f"call {i} answered at {res.outcomes[i][0]} but transmitted at {ws}", {"episode": ep.to_json()})
+    # ... and no fewer, if its timeout allows: a caller is told "failed" before its own deadline only when the
+    # budget is spent (or the link / a write failed)
+    faults = bool(res.conn_lost_at) or any(v.get("fail") for v in ep.tx.values())
+    for i, c in enumerate(ep.calls):
+        if faults or i not in res.outcomes or res.outcomes[i][1] != "err" or i not in res.started:
+            continue
+        deadline = res.started[i] + min(c["timeout"], 20.0)
+        if res.outcomes[i][0] < deadline - 1e-6 and len(by_call.get(i, [])) < limit_of(c):
+            chk.violation("c08.gave_up_early", f"call {i} (max_retries={c['max_retries']}, timeout={c['timeout']}, called at {res.started[i]}) was failed at "
+                          f"{res.outcomes[i][0]} after {len(by_call.get(i, []))} of {limit_of(c)} transmissions: {res.outcomes[i][2][:60]}",
+                          {"episode": ep.to_json()})
     if len(order) != len(set(order)):
         chk.violation("c08.interleaved", f"transmission order {order}: a command was resumed after another started", {"episode": ep.to_json()})
     for a, b in zip(order, order[1:]):
